@@ -13,10 +13,11 @@ for n in ('notes.json', 'meta.json'):
 ok = res.get('demo_with_change_rc', 1) != 0 and res.get('demo_without_change_rc', 0) == 0
 dst = os.path.join('/verif/seeded', name)
 os.makedirs(dst, exist_ok=True)
-shutil.copy(os.path.join(src, 'patch.diff'), dst)
-if os.path.exists(os.path.join(src, 'demo.py')):
+if os.path.abspath(src) != os.path.abspath(dst):
+    shutil.copy(os.path.join(src, 'patch.diff'), dst)
+if os.path.exists(os.path.join(src, 'demo.py')) and os.path.abspath(src) != os.path.abspath(dst):
     shutil.copy(os.path.join(src, 'demo.py'), dst)
-meta = {'property': res['property'], 'breaks': notes.get('breaks'), 'needs': notes.get('needs'), 'author_ran': notes.get('ran'),
+meta = {'property': res['property'], 'breaks': notes.get('breaks'), 'needs': notes.get('needs'), 'author_ran': notes.get('ran') or notes.get('author_ran'),
         'confirmed': {'demo_fails_with_change': res.get('demo_with_change_rc', 0) != 0, 'demo_passes_without': res.get('demo_without_change_rc') == 0,
                       'how': 'tools/seedcheck.py: patch applied in a scratch worktree of /repo HEAD, demo.py run with and without, ./check run with VERIF_REPO pointing at the worktree'},
         'check': {'detected': res.get('detected'), 'no_failing_input_found': res.get('no_failing_input'), 'tail': res.get('check_tail', '')[-500:]}}
